@@ -9,11 +9,18 @@
      po / cv   the play-only / config-valid packets of a list, order kept
      live s    contents of the queue c.playPacketQueue points to
    spec_write = pointer read and queue-or-encode in one critical section (what the property needs);
-   impl_write = today's bufferPacket: read the pointer under c.mu, use it after unlocking. *)
+   impl_write = today's bufferPacket (since fix commit 4cea635) = spec_write, see C14_impl_is_spec;
+   old_write  = the PRE-FIX bufferPacket: read the pointer under c.mu, use it after unlocking
+                (finding C14-1, reproduced on the real code, fixed; kept as a fact about the old code). *)
 From Coq Require Import List NArith Bool Arith.
 From Verif Require Import Base.Conc Base.ConcExec Model.PlayQueue Proofs.C14 Proofs.C14_order.
 Import ListNotations.
 Local Open Scope nat_scope.
+
+(* today's code is the one-critical-section write the theorems below are about *)
+Theorem C14_impl_is_spec : impl_write = spec_write.
+Proof. reflexivity. Qed.
+Print Assumptions C14_impl_is_spec.
 
 (* "held back and, once it returns to play, delivered in the order they were written, none lost or
    duplicated, before any play packet written later; packets valid in configuration are written
@@ -23,7 +30,7 @@ Local Open Scope nat_scope.
    config-valid packets are on the wire in acceptance order with none pending; once back in PLAY nothing
    is pending; every frame was produced by a registry that knows the packet (play-only: PLAY only). *)
 Theorem C14_fifo_no_loss_no_dup : forall pss fs sched,
-  let r := run (threads_of (program spec_write pss fs)) sched init in
+  let r := run (threads_of (program impl_write pss fs)) sched init in
   let s := final_state r in
   let evs := events r in
   s_closed s = false ->
@@ -37,7 +44,7 @@ Print Assumptions C14_fifo_no_loss_no_dup.
 (* the same without the premise: even on a connection that got closed the wire is a prefix of the
    acceptance order *)
 Theorem C14_wire_is_prefix_always : forall pss fs sched,
-  let r := run (threads_of (program spec_write pss fs)) sched init in
+  let r := run (threads_of (program impl_write pss fs)) sched init in
   let evs := events r in
   (exists rest, po (acc evs) = po (wire evs) ++ rest) /\ cv (acc evs) = cv (wire evs).
 Proof. exact wire_is_prefix_always. Qed.
@@ -46,7 +53,7 @@ Print Assumptions C14_wire_is_prefix_always.
 (* "none ... duplicated": distinct packets in the programs give distinct packets on the wire *)
 Theorem C14_wire_no_duplicates : forall pss fs sched,
   NoDup (concat pss) ->
-  let r := run (threads_of (program spec_write pss fs)) sched init in
+  let r := run (threads_of (program impl_write pss fs)) sched init in
   NoDup (acc (events r)) /\ NoDup (wire (events r)).
 Proof. exact wire_no_duplicates. Qed.
 Print Assumptions C14_wire_no_duplicates.
@@ -55,7 +62,7 @@ Print Assumptions C14_wire_no_duplicates.
    the live queue never exceeds 1024; ErrQueueFull implies the connection is closed; on an open
    connection a write that returned nil is on the wire or in the live queue *)
 Theorem C14_overflow_closes : forall pss fs sched,
-  let r := run (threads_of (program spec_write pss fs)) sched init in
+  let r := run (threads_of (program impl_write pss fs)) sched init in
   let s := final_state r in
   let evs := events r in
   length (live s) <= 1024
@@ -83,7 +90,7 @@ Print Assumptions C14_bound_exact.
    returned nil *)
 Theorem C14_each_writer_in_order : forall pss fs sched,
   NoDup (concat pss) ->
-  let r := run (threads_of (program spec_write pss fs)) sched init in
+  let r := run (threads_of (program impl_write pss fs)) sched init in
   let s := final_state r in
   let evs := events r in
   complete (remaining r) = true -> s_closed s = false -> s_phase s = Play ->
@@ -97,7 +104,7 @@ Print Assumptions C14_each_writer_in_order.
 (* at any point of any run, closed or not: never reordered *)
 Theorem C14_each_writer_never_reordered : forall pss fs sched,
   NoDup (concat pss) ->
-  let r := run (threads_of (program spec_write pss fs)) sched init in
+  let r := run (threads_of (program impl_write pss fs)) sched init in
   let evs := events r in
   forall t,
     subseq (owned (nth t pss []) (po (wire evs))) (po (nth t pss []))
@@ -105,49 +112,51 @@ Theorem C14_each_writer_never_reordered : forall pss fs sched,
 Proof. exact each_writer_never_reordered. Qed.
 Print Assumptions C14_each_writer_never_reordered.
 
-(* REFUTED for today's code (finding C14-1, reproduced on the real code): one writer, one goroutine
-   entering and leaving CONFIG, schedule [enter; W.read_ptr; release; W.push]: the write returns nil, the
-   run is complete, the connection open and in PLAY, and the packet is neither on the wire nor in the
-   live queue - it sits in the queue object that was released before it was pushed *)
-Theorem C14_fifo_refuted_for_impl :
+(* PRE-FIX code (finding C14-1, reproduced on the real code at the time, fixed by 4cea635): REFUTED for the
+   two-step write.  One writer, one goroutine entering and leaving CONFIG, schedule
+   [enter; W.read_ptr; release; W.push]: the write returns nil, the run is complete, the connection open
+   and in PLAY, and the packet is neither on the wire nor in the live queue - it sits in the queue object
+   that was released before it was pushed *)
+Theorem C14_fifo_refuted_for_old_write :
   exists pss fs sched,
-    let r := run (threads_of (program impl_write pss fs)) sched init in
+    let r := run (threads_of (program old_write pss fs)) sched init in
     let s := final_state r in
     let evs := events r in
     complete (remaining r) = true /\ s_closed s = false /\ s_phase s = Play
     /\ In (ERes 0 witness_pkt ROk) evs
     /\ wire evs = [] /\ live s = []
     /\ po (acc evs) <> po (wire evs) ++ live s.
-Proof. exact fifo_refuted_for_impl. Qed.
-Print Assumptions C14_fifo_refuted_for_impl.
+Proof. exact fifo_refuted_for_old_write. Qed.
+Print Assumptions C14_fifo_refuted_for_old_write.
 
-(* the second window of today's code: pointer read in PLAY, encode after CONFIG was entered: the
-   encoder refuses the packet and the connection is closed although no queue overflowed *)
-Theorem C14_impl_closes_without_overflow :
+(* PRE-FIX code, second window: pointer read in PLAY, encode after CONFIG was entered: the encoder refuses
+   the packet and the connection is closed although no queue overflowed *)
+Theorem C14_old_write_closes_without_overflow :
   exists pss fs sched,
-    let r := run (threads_of (program impl_write pss fs)) sched init in
+    let r := run (threads_of (program old_write pss fs)) sched init in
     complete (remaining r) = true
     /\ s_closed (final_state r) = true
     /\ events r = [EClose; ERes 0 witness_pkt RErrEncode].
-Proof. exact impl_closes_without_overflow. Qed.
-Print Assumptions C14_impl_closes_without_overflow.
+Proof. exact old_write_closes_without_overflow. Qed.
+Print Assumptions C14_old_write_closes_without_overflow.
 
-(* sequential histories (what the harness compares exactly): run alone, today's write IS the property's *)
-Theorem C14_seq_impl_eq_spec : forall ops a b, obs_eq a b ->
-  seq_run impl_write ops a = seq_run spec_write ops b.
-Proof. exact seq_impl_eq_spec. Qed.
-Print Assumptions C14_seq_impl_eq_spec.
+(* PRE-FIX code on sequential histories: run alone, the two-step write behaves like the property's - which
+   is why single-threaded tests never saw the defect *)
+Theorem C14_seq_old_eq_spec : forall ops a b, obs_eq a b ->
+  seq_run old_write ops a = seq_run spec_write ops b.
+Proof. exact seq_old_eq_spec. Qed.
+Print Assumptions C14_seq_old_eq_spec.
 
-(* non-vacuity: a program with two writers and a state changer; all 30 schedules of the property's write
-   satisfy the equations, one of the 420 schedules of today's write does not; 1024 packets fit, the 1025th
+(* non-vacuity: a program with two writers and a state changer; all 30 schedules of today's write
+   satisfy the equations, one of the 420 schedules of the pre-fix write does not; 1024 packets fit, the 1025th
    closes *)
 Example C14_nonvacuous_small :
-  check_all_schedules (threads_of (program spec_write small_pss small_fs)) init trace_ok = true
-  /\ check_all_schedules (threads_of (program impl_write small_pss small_fs)) init trace_ok = false.
-Proof. split; [exact (proj1 small_spec_all_schedules)|exact (proj1 small_impl_some_schedule_fails)]. Qed.
+  check_all_schedules (threads_of (program impl_write small_pss small_fs)) init trace_ok = true
+  /\ check_all_schedules (threads_of (program old_write small_pss small_fs)) init trace_ok = false.
+Proof. split; [exact (proj1 small_spec_all_schedules)|exact (proj1 small_old_some_schedule_fails)]. Qed.
 
 Example C14_nonvacuous_overflow :
-  let rs := seq_run spec_write (burst 1025) init in
+  let rs := seq_run impl_write (burst 1025) init in
   forallb (fun x => negb (snd x)) (firstn 1025 rs) = true
   /\ map (fun x => result_of (fst x)) (skipn 1024 rs) = [ROk; RErrQueueFull]
   /\ map snd (skipn 1024 rs) = [false; true].
